@@ -442,6 +442,22 @@ func (c *Ctx) Report(o Oracle, cands map[string][]candidate) int {
 	violations := 0
 	knownSeen := map[string]bool{}
 	w := c.Pool.One()
+	if os.Getenv("VERIF_SURVEY") != "" {
+		// triage aid (not a check): list every signature with its smallest example
+		for _, sig := range sigs {
+			list := cands[sig]
+			sort.Slice(list, func(a, b int) bool { return caseSize(list[a].cs) < caseSize(list[b].cs) })
+			kn := ""
+			if c.openKnown(sig) != nil {
+				kn = " [known]"
+			}
+			fmt.Printf("SURVEY %5d %s%s\n", len(list), sig, kn)
+			last := list[0].cs.Steps[len(list[0].cs.Steps)-1]
+			fmt.Printf("        argv=%v example=%q\n", last.Argv, shortStr(stepFiles(list[0].cs, len(list[0].cs.Steps)-1)[target], 200))
+			c.writeReplay(list[0].cs, list[0].f, "survey", "survey")
+		}
+		return 0
+	}
 	for _, sig := range sigs {
 		list := cands[sig]
 		sort.Slice(list, func(a, b int) bool {
